@@ -47,6 +47,7 @@ type SrvWorld struct {
 	started    chan struct{}
 	finalTries int
 	lossFree   bool
+	pausedTCP  bool // some scripted client stops reading its connection for a while (tcp_pause)
 	issuedAt   map[int]int64 // op id -> instant it was issued
 	wedgeReported bool
 	authMu     sync.Mutex
@@ -128,6 +129,11 @@ func NewSrvWorld(k *Kernel, p *Plan) *SrvWorld {
 	for _, f := range p.NetFaults {
 		if f.Do == "drop" || f.Do == "corrupt" || f.Do == "truncate" {
 			w.lossFree = false
+		}
+	}
+	for _, o := range p.Ops {
+		if o.Kind == "tcp_pause" {
+			w.pausedTCP = true
 		}
 	}
 	return w
@@ -674,6 +680,9 @@ func (w *SrvWorld) closeServer() {
 	}
 	w.closedSrv = true
 	w.Mon.mu.Lock()
+	if !w.Mon.serverClosed {
+		w.Mon.serverClosedAt = w.K.Now()
+	}
 	w.Mon.serverClosed = true
 	w.Mon.mu.Unlock()
 	w.lib("server-close", func() {
